@@ -138,8 +138,12 @@ def _weave_states_in_region(
                     if_state = _weave_states_in_region(op.true_region, state.copy(), rewriter)
                     else_state = _weave_states_in_region(op.false_region, state.copy(), rewriter)
 
+                    # states that got invalidated in one of the branches are unknown after the if
+                    invalidated = [acc for acc in state if acc not in if_state or acc not in else_state]
                     # calculate the delta:
                     delta = calc_if_state_delta(state, if_state, else_state)
+                    for acc in invalidated:
+                        del state[acc]
                     # no delta = nothing to do
                     if not delta:
                         continue
@@ -187,6 +191,9 @@ def _weave_states_in_region(
                     # check which states got new uses:
                     # no state change in loop => nothing to do
                     if not updated_accelerators:
+                        # the loop body may still contain ops that change the state behind our back
+                        if has_accfg_effects(op):
+                            state.clear()
                         continue
 
                     # insert empty setup ops for all setups that don't have a state before the loop
@@ -248,6 +255,13 @@ def _weave_states_in_region(
                         if isinstance(result.type, accfg.StateType):
                             # update the state to reflect this
                             state[result.type.accelerator.data] = result
+
+                    # the loop body may still contain ops that change the state of the
+                    # accelerators that are not carried through the loop behind our back
+                    if has_accfg_effects(op):
+                        for acc_name in tuple(state):
+                            if acc_name not in updated_accelerators:
+                                del state[acc_name]
                 # any other op that contains ops:
                 elif op.regions:
                     _weave_states_in_region(op, dict(), rewriter)
